@@ -18,18 +18,29 @@ How an item is located (tools/rustlite.py, tools/rustfn.py do the reading):
     the crate wherever they are defined, `u32::MAX`), never matched textually.
   * coq/gen/extracted_meta.json records for every item the pattern that located it, the file and the line.
 
+Fault isolation.  The items are located in SECTIONS (one function of the Rust, or one item); a section that fails
+(ExtractError, or any exception of the reading code) does not stop the others.  For every item the failed section
+did not produce, Extracted.v carries the value of the COMMITTED baseline tools/extracted_baseline.json (written by
+`extract.py --write-baseline` from a tree where everything is located), so that the Coq development still compiles;
+extracted_meta.json marks the item `"fallback": true` with the error, and ./check decides per property whether the
+item matters (DESIGN 5.1).  Fatal (exit 2, EXTRACT-ERROR): a source file that cannot be read or lexed, a failed item
+without a baseline value.  Exit 3 (one line `EXTRACT-PARTIAL translator:<item> [<file>]: <error>` per item): some
+items fell back.  Exit 0: everything located.
+
 KESTREL_REPO=<dir> points the translator at another tree; KESTREL_EXTRACT_OUT=<dir> writes the two files there.
-tools/test_extract.py is the self-test (harmless rewrites keep every value, real changes do not).
+tools/test_extract.py is the self-test (harmless rewrites keep every value, real changes do not, the baseline is
+the extraction of the unchanged tree).
 """
-import os, sys, json
+import os, sys, json, subprocess
 
 sys.path.insert(0, os.path.dirname(os.path.abspath(__file__)))
-from rustlite import ExtractError, Crate          # noqa: E402
+from rustlite import ExtractError, FatalExtract, Crate          # noqa: E402
 from rustfn import FnCtx                          # noqa: E402
 
 REPO = os.environ.get("KESTREL_REPO", "/repo")
 GEN = os.environ.get("KESTREL_EXTRACT_OUT") or \
     os.path.join(os.path.dirname(os.path.abspath(__file__)), "..", "coq", "gen")
+BASELINE = os.path.join(os.path.dirname(os.path.abspath(__file__)), "extracted_baseline.json")
 
 
 from xt_common import Roles, Tokens, Texts, Words, OptTable   # noqa: E402  (typed values for rendering)
@@ -59,15 +70,52 @@ def role_str(r):
 
 
 # ------------------------------------------------------------------ session
+class Section:
+    """`with S.section(name):` -- an exception inside is recorded for the section and swallowed: the items the
+    section had not produced yet fall back to the baseline, the sections after it still run"""
+
+    def __init__(self, S, name):
+        self.S, self.name = S, name
+
+    def __enter__(self):
+        self.S._stack.append(self.name)
+        return self
+
+    def __exit__(self, et, ev, tb):
+        self.S._stack.pop()
+        if et is None or not issubclass(et, Exception) or issubclass(et, FatalExtract):
+            return False
+        if issubclass(et, ExtractError):
+            msg = str(ev)
+        else:
+            msg = "internal:%s: %s" % (et.__name__, ev)
+        # the nearest enclosing section is the unit of failure: the error stops here
+        self.S.section_errors.setdefault(self.name, msg)
+        return True
+
+
 class Session:
     def __init__(self, repo):
         self.repo = repo
         self.E = {}
         self.M = {}
+        self.sec = {}             # item -> section that produced it
+        self.section_errors = {}  # section -> error text
+        self.item_errors = {}     # item -> error text (all patterns failed)
+        self._stack = []
         self.crypto = Crate(repo, "src/crypto/src")
         self.cli = Crate(repo, "src/cli/src")
         self.ffi = Crate(repo, "src/ffi/src")
         self._fc = {}
+
+    def section(self, name):
+        return Section(self, name)
+
+    def val(self, name):
+        """value of an item located earlier; the caller's section fails if it was not"""
+        if name not in self.E:
+            raise ExtractError("needs %s, which was not located" % name)
+        return self.E[name]
 
     def fn(self, crate, name, item, impl=None, pick=None):
         key = (crate.sub, name, impl, getattr(pick, "__name__", None))
@@ -80,9 +128,10 @@ class Session:
             raise ExtractError("internal:item %s defined twice" % name)
         self.E[name] = value
         self.M[name] = {"pattern": pattern, "file": where.get("file"), "line": where.get("line")}
+        self.sec[name] = self._stack[-1] if self._stack else name
 
     def item(self, name, *alts):
-        """alts: (pattern_name, thunk); thunk returns (value, where).  First success wins."""
+        """alts: (pattern_name, thunk); thunk returns (value, where).  First success wins; raises when none does."""
         errs = []
         for (pat, th) in alts:
             try:
@@ -92,7 +141,9 @@ class Session:
                 continue
             self.put(name, v, pat, w)
             return v
-        raise ExtractError("%s [%s]" % (name, " | ".join(errs)))
+        msg = "%s [%s]" % (name, " | ".join(errs))
+        self.item_errors[name] = msg
+        raise ExtractError(msg)
 
     def group(self, names, *alts):
         """like item, for thunks that return ({name: value}, where) for several items located together"""
@@ -109,16 +160,96 @@ class Session:
                 wn = w.get(n, w) if isinstance(w.get(n, None), dict) else w
                 self.put(n, d[n], pat, wn)
             return d
-        raise ExtractError("%s [%s]" % ("/".join(names), " | ".join(errs)))
+        msg = "%s [%s]" % ("/".join(names), " | ".join(errs))
+        for n in names:
+            self.item_errors[n] = msg
+        raise ExtractError(msg)
+
+    def try_item(self, name, *alts):
+        """item in a section of its own: a failure does not stop the caller (returns None)"""
+        with self.section(name):
+            return self.item(name, *alts)
+        return None
+
+    def try_group(self, names, *alts):
+        with self.section("/".join(names)):
+            return self.group(names, *alts)
+        return None
+
+    # ---- after all sections have run
+    def failed_items(self, baseline):
+        """{item: error} for the items of the baseline this run did not produce"""
+        out = {}
+        items = (baseline or {}).get("items", {})
+        for n, b in items.items():
+            if n in self.E:
+                continue
+            out[n] = (self.item_errors.get(n) or self.section_errors.get(b.get("section")) or self.section_errors.get(n)
+                      or "not produced by this run (section %s)" % b.get("section"))
+        for n, e in self.item_errors.items():
+            if n not in self.E and n not in out:
+                out[n] = e
+        return out
+
+
+def run_sections(S):
+    import xt_crypto, xt_files, xt_cli
+    for (name, f) in (("lib.rs / noise.rs / scrypt.rs", xt_crypto.run),     # lib.rs, noise.rs, scrypt.rs
+                      ("encrypt.rs / decrypt.rs", xt_files.run),            # encrypt.rs, decrypt.rs
+                      ("cli / ffi / Cargo.lock", xt_cli.run)):              # keyring.rs, main.rs, commands.rs, ffi
+        with S.section(name):
+            f(S)
+
+
+def extract_all(repo=None):
+    """runs every section; returns the Session (E, M, section_errors, item_errors).  Raises ExtractError only for
+    what is fatal (a source file that cannot be read or lexed)."""
+    S = Session(repo or REPO)
+    run_sections(S)
+    return S
 
 
 def extract(repo=None):
-    S = Session(repo or REPO)
-    import xt_crypto, xt_files, xt_cli
-    xt_crypto.run(S)      # lib.rs, noise.rs, scrypt.rs
-    xt_files.run(S)       # encrypt.rs, decrypt.rs
-    xt_cli.run(S)         # keyring.rs, main.rs, commands.rs, ffi, Cargo.lock
+    """strict: (values, meta) when every item is located, ExtractError otherwise"""
+    S = extract_all(repo)
+    errs = dict(S.section_errors)
+    errs.update(S.item_errors)
+    bad = {k: v for k, v in errs.items() if k not in S.E}
+    if bad:
+        k = sorted(bad)[0]
+        raise ExtractError(bad[k] if bad[k].startswith(k) else "%s: %s" % (k, bad[k]))
     return S.E, S.M
+
+
+# ------------------------------------------------------------------ baseline
+def load_baseline(path=None):
+    try:
+        with open(path or BASELINE) as f:
+            return json.load(f)
+    except (OSError, ValueError):
+        return None
+
+
+def repo_head(repo):
+    """(HEAD commit, True iff the sources the translator reads are unmodified) or (None, False)"""
+    try:
+        h = subprocess.run(["git", "-C", repo, "rev-parse", "HEAD"], stdout=subprocess.PIPE, stderr=subprocess.DEVNULL, text=True)
+        d = subprocess.run(["git", "-C", repo, "status", "--porcelain", "--", "src", "Cargo.lock"], stdout=subprocess.PIPE,
+                           stderr=subprocess.DEVNULL, text=True)
+        if h.returncode == 0 and d.returncode == 0:
+            return h.stdout.strip(), d.stdout.strip() == ""
+    except OSError:
+        pass
+    return None, False
+
+
+def make_baseline(S):
+    lines = render_lines(S.E)
+    head, clean = repo_head(S.repo)
+    js = jsonable(S.E)
+    return {"made_from": {"repo_head": head, "clean": clean},
+            "items": {k: {"value": js[k], "coq": lines[k], "section": S.sec.get(k), "file": S.M[k].get("file")}
+                      for k in sorted(S.E)}}
 
 
 # ------------------------------------------------------------------ rendering
@@ -126,43 +257,54 @@ def nlist(v):
     return "[%s]" % "; ".join(str(x) for x in v)
 
 
-def render(E):
-    L = []
-    L.append("(* gen/Extracted.v — GENERATED by tools/extract.py from /repo's working tree on every check.")
-    L.append("   Do not edit.  Literals and shapes only. *)")
-    L.append("From Coq Require Import List NArith.")
-    L.append("Import ListNotations.")
-    L.append("Local Open Scope N_scope.")
-    L.append("Inductive token := TE | TS | TEE | TES | TSE | TSS.")
-    L.append("(* what an argument expression of a call IS, found by following the local bindings back to a parameter,")
-    L.append("   a constant, a buffer filled by a read, the result of another call ... (tools/extract.py) *)")
-    L.append("Inductive role :=")
-    L.append("| " + " | ".join(ROLE_NULLARY))
-    L.append("| " + " | ".join("%s (n : N)" % r for r in ROLE_UNARY_N))
-    L.append("| " + " | ".join("%s (r : role)" % r for r in ROLE_UNARY_R) + ".")
+HEADER = ["(* gen/Extracted.v — GENERATED by tools/extract.py from /repo's working tree on every check.",
+          "   Do not edit.  Literals and shapes only. *)",
+          "From Coq Require Import List NArith.",
+          "Import ListNotations.",
+          "Local Open Scope N_scope.",
+          "Inductive token := TE | TS | TEE | TES | TSE | TSS.",
+          "(* what an argument expression of a call IS, found by following the local bindings back to a parameter,",
+          "   a constant, a buffer filled by a read, the result of another call ... (tools/extract.py) *)",
+          "Inductive role :=",
+          "| " + " | ".join(ROLE_NULLARY),
+          "| " + " | ".join("%s (n : N)" % r for r in ROLE_UNARY_N),
+          "| " + " | ".join("%s (r : role)" % r for r in ROLE_UNARY_R) + "."]
+
+
+def render_lines(E):
+    """{item: its Definition line}"""
+    out = {}
     for k in sorted(E):
         v = E[k]
         if isinstance(v, Tokens):
-            L.append("Definition x_%s : list token := [%s]." % (k, "; ".join("T" + t for t in v)))
+            out[k] = "Definition x_%s : list token := [%s]." % (k, "; ".join("T" + t for t in v))
         elif isinstance(v, Roles):
-            L.append("Definition x_%s : list role := [%s]." % (k, "; ".join(role_str(r) for r in v)))
+            out[k] = "Definition x_%s : list role := [%s]." % (k, "; ".join(role_str(r) for r in v))
         elif isinstance(v, Texts):
-            L.append("Definition x_%s : list (list N) := [%s]." % (k, "; ".join(nlist(x) for x in v)))
+            out[k] = "Definition x_%s : list (list N) := [%s]." % (k, "; ".join(nlist(x) for x in v))
         elif isinstance(v, Words):
-            L.append("Definition x_%s : list (list (list N)) := [%s]." % (
-                k, "; ".join("[%s]" % "; ".join(nlist(w) for w in arm) for arm in v)))
+            out[k] = "Definition x_%s : list (list (list N)) := [%s]." % (
+                k, "; ".join("[%s]" % "; ".join(nlist(w) for w in arm) for arm in v))
         elif isinstance(v, OptTable):
-            L.append("Definition x_%s : list (N * list N * list N) := [%s]." % (
-                k, "; ".join("(%d, %s, %s)" % (kd, nlist(s), nlist(l)) for (kd, s, l) in v)))
+            out[k] = "Definition x_%s : list (N * list N * list N) := [%s]." % (
+                k, "; ".join("(%d, %s, %s)" % (kd, nlist(s), nlist(l)) for (kd, s, l) in v))
         elif isinstance(v, list):
-            L.append("Definition x_%s : list N := %s." % (k, nlist(v)))
+            out[k] = "Definition x_%s : list N := %s." % (k, nlist(v))
         elif isinstance(v, bool) or not isinstance(v, int):
             raise ExtractError("render:%s has an unsupported value %r" % (k, v))
         else:
             if v < 0:
                 raise ExtractError("render:%s is negative (%d)" % (k, v))
-            L.append("Definition x_%s : N := %d." % (k, v))
-    return "\n".join(L) + "\n"
+            out[k] = "Definition x_%s : N := %d." % (k, v)
+    return out
+
+
+def render(E, fallback=None):
+    """fallback: {item: Definition line} taken from the baseline for items that were not located"""
+    lines = render_lines(E)
+    for k, l in (fallback or {}).items():
+        lines.setdefault(k, l)
+    return "\n".join(HEADER + [lines[k] for k in sorted(lines)]) + "\n"
 
 
 def jsonable(E):
@@ -187,19 +329,49 @@ def write_if_changed(path, txt):
 
 def main():
     try:
-        E, M = extract()
-        txt = render(E)
-    except ExtractError as e:
+        S = extract_all()
+        base = load_baseline()
+        failed = S.failed_items(base)
+        if (S.section_errors or S.item_errors) and base is None:
+            e = dict(S.section_errors)
+            e.update(S.item_errors)
+            k = sorted(e)[0]
+            raise ExtractError("%s (and there is no tools/extracted_baseline.json to fall back on)" % e[k])
+        fb_lines, fb_vals = {}, {}
+        for n in failed:
+            b = base["items"].get(n)
+            if b is None:
+                raise ExtractError("%s (no baseline value to fall back on)" % failed[n])
+            fb_lines[n], fb_vals[n] = b["coq"], b["value"]
+        txt = render(S.E, fb_lines)
+    except (ExtractError, FatalExtract) as e:
         print("EXTRACT-ERROR translator:%s" % e)
         return 2
+    if "--write-baseline" in sys.argv:
+        if failed or S.section_errors or S.item_errors:
+            print("EXTRACT-ERROR translator:a baseline can only be written from a tree where every item is located")
+            return 2
+        with open(BASELINE, "w") as f:
+            f.write(json.dumps(make_baseline(S), indent=0, sort_keys=True) + "\n")
     gen = os.path.normpath(GEN)
     os.makedirs(gen, exist_ok=True)
     write_if_changed(os.path.join(gen, "Extracted.v"), txt)
-    meta = {"repo": REPO, "items": len(E), "located": {k: M[k] for k in sorted(M)}}
+    located = {k: S.M[k] for k in sorted(S.M)}
+    for n in sorted(failed):
+        located[n] = {"fallback": True, "error": failed[n], "file": base["items"][n].get("file"), "line": None,
+                      "pattern": None}
+    meta = {"repo": REPO, "items": len(located), "fallback_items": len(failed), "located": located}
+    if base is not None:
+        names_b, names_e = set(base["items"]), set(S.E) | set(failed)
+        meta["baseline"] = {"made_from": base.get("made_from"), "items_not_in_baseline": sorted(names_e - names_b)}
     write_if_changed(os.path.join(gen, "extracted_meta.json"), json.dumps(meta, indent=1, sort_keys=True) + "\n")
+    for n in sorted(failed):
+        print("EXTRACT-PARTIAL translator:%s [%s]: %s" % (n, base["items"][n].get("file"), failed[n].replace("\n", " ")))
     if "--json" in sys.argv:
-        print(json.dumps(jsonable(E)))
-    return 0
+        vals = jsonable(S.E)
+        vals.update(fb_vals)
+        print(json.dumps(vals))
+    return 3 if failed else 0
 
 
 if __name__ == "__main__":
